@@ -210,9 +210,13 @@ def run(tier):
     # ---------------- R3
     ck.rule("R3.native-recursion", "recursive call-graph cycles that run on script-built structures have a depth guard or a reasoned bound", floor=15)
     runtime = M.reachable_fns(fx, ["interpreter::Interpreter::step", "interpreter::Interpreter::eval"]) | M.reachable_fns(fx, nat)
+    from common import load_known
+    known_r3 = {k[1].split("/", 1)[1] for k in load_known() if k[0] == "C06" and k[1].startswith("R3.native-recursion/")}
     for comp in sccs(fx):
-        key = comp[0]
-        if key.startswith(("parser::", "compiler::", "lexer::")):
+        # the cycle is named after the member that already names it in the known-findings file, if any, so that
+        # extracting a helper out of a recursive function does not rename the finding; same for the bound table
+        key = next((p for p in comp if p in known_r3), None) or next((p for p in comp if p in RECURSION_BOUNDED), None) or comp[0]
+        if comp[0].startswith(("parser::", "compiler::", "lexer::")):
             continue  # decided under C05
         if not any(p in runtime for p in comp):
             continue
@@ -250,7 +254,7 @@ def run(tier):
         for bi, t in f.calls():
             d = t[1].get("d", "")
             if PANIC.search(d):
-                ok = f.parent in EXPLICIT_PANICS_OK
+                ok = f.parent in EXPLICIT_PANICS_OK or M.only_called_from(fx, f.parent, set(EXPLICIT_PANICS_OK))
                 ck.instance("R5a.explicit-panics", "%s -> %s" % (f.parent, d.split("::")[-1]), F.short_span(t[6]), ok=ok)
                 if not ok:
                     ck.finding("R5a.explicit-panics", "R5a.explicit-panics/%s/%s" % (f.parent, d.split("::")[-1]), F.short_span(t[6]),
